@@ -409,4 +409,21 @@ theorem world_resume_needs_untouched_none_entry :
     ∃ (w : World) (wi : WIns), (w.tradeFee wi none true .open_ 100 10 0).1 ≠ ((RQ.Lemmas.WorldJ.forget w).tradeFee wi none true .open_ 100 10 0).1 :=
   RQ.Lemmas.WorldJ.none_entry_matters
 
+/-! ### resuming INSIDE a trading day: the executor's own state decides whether the morning is repeated -/
+
+/-- restored exactly (`last_before_trading` = the day being resumed): the day's remaining events publish no second BEFORE_TRADING and no settlement -/
+theorem midday_resume_skips_morning (cal : List Nat) (s : ExecState) (e : Src) (h : s.lastBT = some (dayOf e.trd)) :
+    ensureBT cal s e = (s, [], true) := by
+  simp [ensureBT, h]
+
+/-- restored as anything else (a value that does not compare equal to the day — what a date decoded as a datetime is): BEFORE_TRADING of that day is published again,
+with everything the accounts do in the morning (day roll of the T+1 lock, dividends, …) -/
+theorem inexact_restore_repeats_morning (cal : List Nat) (s : ExecState) (e : Src) (h : s.lastBT ≠ some (dayOf e.trd)) :
+    (ensureBT cal s e).2.2 = false ∧ (⟨.bt, .main, e.cal, e.trd⟩ : Pub) ∈ (ensureBT cal s e).2.1 := by
+  unfold ensureBT
+  rw [if_neg h]
+  constructor
+  · rfl
+  · simp [splitPublish]
+
 end RQ.Props.C14
